@@ -654,7 +654,7 @@ def _grams_for(prop, tier, seed):
         extra += ops[::6] if q else ops[::2]
         # stack built-ins (PEEK_ALL, POP_ALL, slices) whose match ends at the very end of the sub-input; the trigger grammar
         sl = F.fam_slices(tier)
-        extra += F.fam_trig(tier) + [dict(g, inputs=g["inputs"][::6 if q else 2]) for g in (sl[2:9:3] if q else sl)]
+        extra += F.fam_trig(tier) + [dict(g, inputs=g["inputs"][::6 if q else 10]) for g in (sl[2:9:3] if q else sl[::3])]
         for x in extra:
             x["ctxs"] = ctx if not q else ctx[:5]
             x["maxlen"] = min(x.get("maxlen", 3), 3)
